@@ -345,13 +345,21 @@ pub fn main(args: &[String]) {
         let plain = m.rust();
         let mut src = plain.clone();
         let mut tag = String::from("plain");
-        if i % 4 != 0 {
-            let (t, items) = crate::extras::extras_with(&mut rng, &m, prof.option, Some(i / 3 + i));
-            let with = crate::extras::splice(&src, &items);
-            if tool::run_backend(&with, target).lowering_errors.is_empty() {
-                src = with;
-                tag = t;
+        if i % 12 != 11 {
+            // two kinds per module, walking through every kind on every backend within 36 modules
+            let (r, j) = (i / 3, i % 3);
+            // each kind is kept when the backend accepts it (some kinds need features a backend lacks)
+            let mut tags = vec![];
+            for k in [r + 5 * j, r + 5 * j + 7] {
+                let Some((t, items)) = crate::extras::extras_only(&mut rng, &m, prof.option, k) else { continue };
+                if tags.iter().any(|x: &String| x == t) { continue; }
+                let with = crate::extras::splice(&src, &items);
+                if tool::run_backend(&with, target).lowering_errors.is_empty() {
+                    src = with;
+                    tags.push(t.to_string());
+                }
             }
+            if !tags.is_empty() { tag = tags.join("+"); }
         }
         if i % 2 == 0 {
             let (t, items) = sweep_snippet(&mut rng, target);
